@@ -543,7 +543,7 @@ class GFA:
         if size not given then it keeps going until it runs out of nodes
         """
         if reset_visited:
-            self.set_visited(reset_visited)
+            self.set_visited(False)
 
         if len(self.nodes[start_id].neighbors()) == 0:
             return {start_id}
@@ -603,7 +603,8 @@ class GFA:
         find all connected components in the graph
         """
         connected_comp = []
-        # visited = set()
+        # the marks of an earlier traversal (e.g. bfs) must not hide nodes from this one
+        self.set_visited(False)
         for n in self.nodes:
             if not self.nodes[n].visited:
                 connected_comp.append(self.find_component(n))
